@@ -1179,3 +1179,97 @@ class NamedTupleFieldsPy(IsNamedTupleClassPy):
     def post(self, eng, st, entry, ret):
         return [('returns-the-fields-of-the-class', ret == nt_attr(self.C(), nt_name('_fields'))),
                 ('only-for-namedtuple-classes', NT(self.C()))]
+
+
+# ======================================================================================================================
+# C18 / C02: utils.total_order_sorted - the Python twin of the engine's TotalOrderSort (ocv/contracts/sorting.py), against
+# the same three-stage specification over abstract list contents
+
+sorted_plain = z3.Function('sorted_plain', Ref, Ref)
+sorted_by_key = z3.Function('sorted_by_typename_then_value', Ref, Ref)
+
+
+@pycontract
+class TotalOrderSortedPy(PyContract):
+    """total_order_sorted(iterable) with key=None, reverse=False (the way the one-level twin uses it):
+       result = sorted_plain(C0)  if sorting C0 = list(iterable) directly succeeds,
+                sorted_by_typename_then_value(C0)  if that raised TypeError and sorting by the fallback key succeeds,
+                C0  if that raised TypeError as well;  every other exception propagates.
+       The fallback key of x is (<'module.qualname' of type(x)>, x)."""
+    module = 'optree/utils.py'
+    function = 'total_order_sorted'
+
+    def setup(self, eng, st, fn):
+        st.env.vars['iterable'] = z3.Const('iterable', Ref)
+        st.env.vars['key'] = PYNONE
+        st.env.vars['reverse'] = z3.BoolVal(False)
+        self.C0 = z3.Const('content_on_entry', Ref)
+        st.ghost['outcomes'] = ()
+        st.ghost['key_checked'] = False
+
+    def global_name(self, eng, st, name):
+        if name in ('sorted',):
+            return BuiltinV('sorted')
+        return None
+
+    def attribute(self, eng, st, base, attr):
+        if is_z3(base) and base.sort() == Ref:
+            return z3.Function('attr_' + attr, Ref, Ref)(base)
+        return None
+
+    def call(self, eng, st, f, args, kwargs, n, stars):
+        line = n.lineno
+        if isinstance(f, BuiltinV) and f.name == 'list' and len(args) == 1 and is_z3(args[0]):
+            s_exc = st.clone()
+            eng.throw(s_exc, 'IterationError', line)
+            return [(st, StructV('content', (('c', self.C0),)))]
+        if isinstance(f, BuiltinV) and f.name == 'sorted':
+            seq = args[0]
+            if not (isinstance(seq, StructV) and seq.kind == 'content'):
+                raise Unsupported('sorted of something else')
+            eng.oblige(st, 'III', 'sorts-the-original-content', seq.get('c') == self.C0, line)
+            keyf = kwargs.get('key', PYNONE)
+            which = 'sort1' if not isinstance(keyf, FuncV) else 'sort2'
+            if isinstance(keyf, FuncV):
+                x = z3.Const('x!key', Ref)
+                s_k = st.clone()
+                r = eng.call_function(s_k, keyf, [x], {}, n)
+                ok = len(r) == 1 and isinstance(r[0][1], TupV) and len(r[0][1].items) == 2
+                eng.oblige(st, 'III', 'fallback-key-is-a-pair', z3.BoolVal(ok), line)
+                if ok:
+                    eng.oblige(st, 'III', 'fallback-key-second-component-is-the-object-itself', eng.identical(r[0][1].items[1], x), line)
+                st.ghost['key_checked'] = True
+            else:
+                eng.oblige(st, 'III', 'first-sort-uses-the-given-key', eng.identical(keyf, st.env.get('key')), line)
+            eng.oblige(st, 'III', 'forwards-reverse', eng.truth(st, kwargs.get('reverse', z3.BoolVal(False))) == eng.truth(st, st.env.get('reverse')), line)
+            fn = sorted_plain if which == 'sort1' else sorted_by_key
+            s_te, s_other = st.clone(), st.clone()
+            s_te.ghost['outcomes'] = s_te.ghost['outcomes'] + ((which, 'TypeError'),)
+            eng.throw(s_te, 'TypeError', line)
+            s_other.ghost['outcomes'] = s_other.ghost['outcomes'] + ((which, 'other'),)
+            eng.throw(s_other, 'OtherError', line)
+            st.ghost['outcomes'] = st.ghost['outcomes'] + ((which, 'ok'),)
+            return [(st, StructV('content', (('c', fn(seq.get('c'))),)))]
+        return None
+
+    def raises(self, eng, st, entry):
+        oc = dict(st.ghost['outcomes'])
+        # only a non-TypeError exception of one of the two sorts (or of iterating the argument) may leave the function
+        return {'OtherError': z3.BoolVal('other' in oc.values()), 'IterationError': None}
+
+    def post(self, eng, st, entry, ret):
+        oc = dict(st.ghost['outcomes'])
+        if not (isinstance(ret, StructV) and ret.kind == 'content'):
+            return [('returns-a-list-of-the-items', z3.BoolVal(False))]
+        c = ret.get('c')
+        if oc.get('sort1') == 'ok':
+            exp, legal = sorted_plain(self.C0), True
+        elif oc.get('sort1') == 'TypeError' and oc.get('sort2') == 'ok':
+            exp, legal = sorted_by_key(self.C0), True
+        elif oc.get('sort1') == 'TypeError' and oc.get('sort2') == 'TypeError':
+            exp, legal = self.C0, True
+        else:
+            exp, legal = self.C0, False
+        return [('normal-return-only-in-the-documented-cases', z3.BoolVal(legal)),
+                ('content-is-the-documented-order', c == exp),
+                ('fallback-key-function-was-checked-when-the-fallback-ran', z3.BoolVal('sort2' not in oc or st.ghost['key_checked']))]
